@@ -327,3 +327,95 @@ def consume(it, cons, delays=(0.0,)):
     except BaseException as e:
         terminal = norm(e)
     return outs, terminal
+
+
+# ----------------------------------------------------------------- async counterparts
+
+
+class ASource:
+    """async instrumented source"""
+
+    def __init__(self, n, fail=None, delays=(0.0,)):
+        self.n = n
+        self.fail = fail
+        self.delays = delays
+        self.pulled = 0
+
+    def __aiter__(self):
+        return self._gen()
+
+    async def _gen(self):
+        import asyncio
+
+        for i in range(self.n):
+            d = self.delays[i % len(self.delays)]
+            if d > 0:
+                await asyncio.sleep(d)
+            if self.fail is not None and self.fail['at'] == i:
+                raise make_exc(self.fail['exc'], i, 'source')
+            self.pulled += 1
+            yield i
+        if self.fail is not None and self.fail['at'] >= self.n:
+            raise make_exc(self.fail['exc'], self.n, 'source')
+
+
+def build_astream(spec, src, log=None):
+    from mpservice.streamer._streamer_async import AsyncStream
+
+    s = AsyncStream(src)
+    for idx, stg in enumerate(spec['stages']):
+        op = stg['op']
+        if op == 'map':
+            s.map(stage_fn(stg, idx, log, timed=False))
+        elif op == 'filter':
+            m = stg['mod']
+            f = stage_fn(stg, idx, log, timed=False)
+            s.filter(lambda x, f=f, m=m: (f(x), key_of(x) % m != 0)[1])
+        elif op == 'buffer':
+            s.buffer(stg['maxsize'])
+        elif op in ('parmap', 'parmap_async'):
+            kw = {}
+            p = pre_fn(stg, idx)
+            if p is not None:
+                kw['preprocessor'] = p
+            if op == 'parmap':
+                kw['executor'] = 'thread'
+                fn = stage_fn(stg, idx, log)
+            else:
+                fn = stage_afn(stg, idx, log)
+            s.parmap(fn, concurrency=stg['c'], return_x=stg.get('rx', False), return_exceptions=stg.get('rexc', False), **kw)
+        elif op == 'batch':
+            s.batch(stg['n'])
+        elif op == 'unbatch':
+            s.unbatch()
+        elif op == 'head':
+            s.head(stg['n'])
+        else:
+            raise ValueError(op)
+    return s
+
+
+async def aconsume(ait, cons, delays=(0.0,)):
+    import asyncio
+
+    outs = []
+    kind = cons['kind']
+    at = cons.get('at', 0)
+    terminal = 'end'
+    try:
+        if kind != 'all' and at == 0:
+            terminal = 'stopped'
+        else:
+            async for x in ait:
+                outs.append(norm(x))
+                d = delays[(len(outs) - 1) % len(delays)]
+                if d > 0:
+                    await asyncio.sleep(d)
+                if kind != 'all' and len(outs) >= at:
+                    terminal = 'stopped'
+                    break
+    except SimAbort:
+        raise
+    except BaseException as e:
+        terminal = norm(e)
+    return outs, terminal
